@@ -44,7 +44,7 @@ type responseWriter struct {
 	size        int          // The written size of the response.
 	beforeFuncs []BeforeFunc // The list of functions to be called before written to the response.
 
-	writeHeaderOnce sync.Once
+	writeHeaderMu sync.Mutex // Serializes the attempts to send the status.
 }
 
 // BeforeFunc is a function that is called before the ResponseWriter is written.
@@ -59,21 +59,30 @@ func NewResponseWriter(method string, w http.ResponseWriter) ResponseWriter {
 }
 
 func (w *responseWriter) callBefore() {
-	for i := len(w.beforeFuncs) - 1; i >= 0; i-- {
-		w.beforeFuncs[i](w)
+	// The functions are taken off the list before they are called, so that they
+	// are called at most once even when one of them panics.
+	funcs := w.beforeFuncs
+	w.beforeFuncs = nil
+	for i := len(funcs) - 1; i >= 0; i-- {
+		funcs[i](w)
 	}
 }
 
 func (w *responseWriter) WriteHeader(s int) {
-	w.writeHeaderOnce.Do(func() {
-		if w.Written() {
-			return
-		}
+	w.writeHeaderMu.Lock()
+	defer w.writeHeaderMu.Unlock()
 
-		w.callBefore()
-		w.ResponseWriter.WriteHeader(s)
-		atomic.StoreInt32(&w.status, int32(s))
-	})
+	if w.Written() {
+		return
+	}
+
+	// The status is recorded once it has reached the underlying writer: when a
+	// before function or the underlying writer panics (e.g. on an invalid status
+	// code), nothing has been sent, and a later status (e.g. the 500 of the
+	// Recovery middleware) must still go out.
+	w.callBefore()
+	w.ResponseWriter.WriteHeader(s)
+	atomic.StoreInt32(&w.status, int32(s))
 }
 
 func (w *responseWriter) Write(b []byte) (size int, err error) {
